@@ -102,6 +102,7 @@ type Conn struct {
 	inner *clientHello
 
 	hpkeCtx *hpke.Receipient
+	hpkeKey int // index in keys of the key that hpkeCtx belongs to
 
 	keys             []Key
 	debugf           func(string, ...any)
@@ -191,40 +192,49 @@ func (c *Conn) processEncryptedClientHello(h *clientHello, isRetry bool) (*clien
 	}
 	var innerBytes []byte
 	var opened bool
-	for _, key := range c.keys {
+	for i, key := range c.keys {
+		if c.hpkeCtx != nil && i != c.hpkeKey {
+			// A retried ClientHello can only be opened by the key
+			// that opened the first one.
+			continue
+		}
 		cfg, err := Config(key.Config).Spec()
 		if err != nil || cfg.ID != h.echExt.ConfigID || slices.IndexFunc(cfg.CipherSuites, func(cs CipherSuite) bool {
 			return cs == h.echExt.CipherSuite
 		}) == -1 {
 			continue
 		}
-		if c.hpkeCtx == nil && len(h.echExt.Enc) > 0 {
+		// Each candidate key gets its own HPKE context. A retried
+		// ClientHello reuses the context established by the first one.
+		ctx := c.hpkeCtx
+		if ctx == nil && len(h.echExt.Enc) > 0 {
 			echPriv, err := hpke.ParseHPKEPrivateKey(cfg.KEM, key.PrivateKey)
 			if err != nil {
 				return nil, err
 			}
 			info := append([]byte("tls ech\x00"), key.Config...)
-			ctx, err := hpke.SetupReceipient(cfg.KEM, h.echExt.CipherSuite.KDF, h.echExt.CipherSuite.AEAD, echPriv, info, h.echExt.Enc)
+			ctx, err = hpke.SetupReceipient(cfg.KEM, h.echExt.CipherSuite.KDF, h.echExt.CipherSuite.AEAD, echPriv, info, h.echExt.Enc)
 			if err != nil {
 				continue
 			}
-			c.hpkeCtx = ctx
 		}
-		if c.hpkeCtx == nil {
+		if ctx == nil {
 			return nil, ErrIllegalParameter
 		}
 		aad, err := h.marshalAAD()
 		if err != nil {
 			return nil, err
 		}
-		innerBytes, err = c.hpkeCtx.Open(aad, h.echExt.Payload)
+		innerBytes, err = ctx.Open(aad, h.echExt.Payload)
 		if err != nil {
 			continue
 		}
 		opened = true
+		c.hpkeCtx, c.hpkeKey = ctx, i
 		if string(cfg.PublicName) != h.ServerName {
 			return nil, ErrIllegalParameter
 		}
+		break
 	}
 	if !opened {
 		// Section 7.1.1, regarding a retried ClientHello:
